@@ -46,6 +46,9 @@ CHECKS = {
  "C05": dict(engine="M", technique=M_TECH,
    text="Symbolic execution (mirsym, z3) of the MIR of poll_connection_error, handle_connection_error, close_if_needed, convert_to_connection_error, close_connection, ConnectionState::{get,set}_conn_error(_and_wake), CloseStream::handle_connection_error_on_stream / handle_quic_stream_error, composed under a SYMBOLIC SCHEDULE (one integer position per shared-state operation, program order only): one driver making 2 (quick) / 3 (thorough) calls, each either poll_connection_error or handle_connection_error with an arbitrary error, against 1..2 (quick) / 1..3 (thorough) stream tasks each raising an arbitrary h3 or transport connection error. Decided per path combination by z3: no lost wake-up, every reported error is the conversion of the first stored one, close at most once / only by the driver / only for locally detected errors / with the first error's code.",
    note="Contracts (trusted): OnceLock as a write-once cell, futures' AtomicWaker as one slot whose wake() takes and wakes the registered waker, C::close records its code, Clone identity, the two From impls into ErrorOrigin. Granularity: one step per shared-state primitive call, in MIR order. The MIR is regenerated from /repo on every run (nightly -Zunpretty=mir); an unmodelled callee or MIR construct makes the check inconclusive. Counterexamples are replayed natively (/verif/replay, scripted mock transport, pre-emption hooks) before they are reported. Later API calls on request handles other than the raising call are not modelled.", ref="DESIGN.md §5 C05"),
+ "C08": dict(engine="M", technique=M_TECH,
+   text="One-step inductive checks by symbolic execution of the MIR (z3 decides every branch and property query) from arbitrary pre-states: (A) poll_accept_request_stream_internal with any sent GOAWAY id and up to 2 (quick) / 3 (thorough) arriving client-bidi ids per poll, in any order: handed to the application iff id < GOAWAY id, otherwise stop_sending+reset with H3_REQUEST_REJECTED; (B) first poll of ConnectionInner::shutdown: GOAWAY(id) written iff no id sent before or id smaller, state updated; (C) server shutdown(n) for every n and every last accepted id: announced id greater than every request already handed out and a client-bidi id; (D) client poll_close/process_goaway over every sequence of 2 / 3 GOAWAY ids: H3_ID_ERROR iff not a client-bidi id or larger than the previous one, otherwise recorded and closing set; check_peer_connection_closing refuses iff closing.",
+   note="Lemmas taken from engine K (C16 harnesses): StreamId ordering is numeric, StreamId + n saturates keeping the kind, is_request is raw&3==0; From/Into between the u64 newtypes carry the value. Contracts: transport accept returns Pending / error / a client-bidi stream with arbitrary id; poll_requests_completion arbitrary; stream::write's future Pending / Ok / Err. The asynchronous continuation of shutdown after the first await and whole-history interleavings are not explored (each step is checked from an arbitrary state instead). Counterexamples are replayed natively (mock transport) before being reported.", ref="DESIGN.md §5 C08"),
  # --- more checks are appended above this line ---
 }
 
